@@ -321,6 +321,15 @@ fn hist_streams(tier: Tier) -> Vec<StreamSpec> {
 
 fn hist_case(stream_name: &str, idx: u64, seed: u64) -> History {
     let mut rng = Rng::for_case(seed, stream_id(stream_name), idx);
+    let mut h = hist_case_plain(stream_name, idx, &mut rng);
+    if matches!(stream_name, "hist-rand" | "hist-boundary" | "hist-overfull" | "hist-lens") && rng.chance(1, 4) {
+        decorate_history(&mut h, &mut rng);
+    }
+    h
+}
+
+fn hist_case_plain(stream_name: &str, idx: u64, rng: &mut Rng) -> History {
+    let mut rng = rng.clone();
     match stream_name {
         "hist-short" => short_history(idx),
         "hist-boundary" => boundary_history(&mut rng),
